@@ -144,7 +144,8 @@ def main(tier, only=None):
     proxy_opts = []
     for tp in (None, "10.0.0.1", "*", ""):
         for cnt in (None, 1, "2"):
-            for tph in (None, [], "", ["forwarded"], ["x-forwarded-for"], "x-forwarded-for x-forwarded-host", ["forwarded", "x-forwarded-for"], ["bogus"], ["X-Forwarded-Proto"], "Forwarded"):
+            for tph in (None, [], "", ["forwarded"], ["x-forwarded-for"], "x-forwarded-for x-forwarded-host", ["forwarded", "x-forwarded-for"], ["bogus"], ["X-Forwarded-Proto"], "Forwarded",
+                        ["Forwarded", "X-Forwarded-For"], "FORWARDED x-forwarded-host", ["x-forwarded-by", "forwardeD"], ["Bogus"]):
                 for clear in (None, True, "false"):
                     d = {}
                     if tp is not None:
@@ -285,6 +286,9 @@ def main(tier, only=None):
                 samples = ["/nonexistent/x.sock"]
             for sv in samples:
                 trials += [([opt + "=" + sv], {name: sv}), ([opt, sv], {name: sv})]
+            if kind in ("str", "prefix") and name not in ("host", "unix_socket"):
+                # an explicitly empty value
+                trials += [([opt + "="], {name: ""}), ([opt, ""], {name: ""})]
         for argv, kw in trials:
             n += 1
             try:
@@ -316,15 +320,17 @@ def main(tier, only=None):
         "inet": lambda: socket.socket(socket.AF_INET, socket.SOCK_STREAM),
         "unix": lambda: socket.socket(socket.AF_UNIX, socket.SOCK_STREAM),
         "dgram": lambda: socket.socket(socket.AF_INET, socket.SOCK_DGRAM),
+        "seqpacket": lambda: socket.socket(socket.AF_UNIX, socket.SOCK_SEQPACKET),
+        "unix-dgram": lambda: socket.socket(socket.AF_UNIX, socket.SOCK_DGRAM),
         "nonsock": lambda: "not-a-socket",
     }
-    for L in range(0, 4):
+    for L in range(0, 4 if tier == "thorough" else 3):
         for combo in itertools.product(kinds, repeat=L):
             objs = [kinds[k]() for k in combo]
             try:
                 n += 1
                 real = [k for k in combo if k != "nonsock"]
-                want_err = "dgram" in real or ("inet" in real and "unix" in real)
+                want_err = any(k in real for k in ("dgram", "seqpacket", "unix-dgram")) or ("inet" in real and "unix" in real)
                 adj, err = make(Adjustments, {"sockets": objs})
                 classes.add(("sockets", tuple(combo), err is None))
                 if want_err and err is None:
